@@ -299,6 +299,8 @@ class MonthClass:
 
 
 class Interp:
+    resolver = None  # optional: name ("func" or "Class.func") -> FunctionDef of a repository function to follow
+    global_literals = None  # optional: module-level NAME -> literal expression node (unique names over the repository)
     def __init__(self, classes=None, decisions=None, month_class=None, opaque_calls=True):
         self.classes = classes or {}  # class name -> ast.ClassDef
         self.decisions = decisions if decisions is not None else {}
@@ -826,6 +828,12 @@ class Interp:
             return self.globals[e.id]
         if e.id in self.classes:
             return Opaque("class:" + e.id)
+        if Interp.global_literals is not None and e.id in Interp.global_literals:
+            node = Interp.global_literals[e.id]
+            try:
+                return self.eval(node, {})
+            except Unsupported:
+                pass
         if e.id in ("True", "False", "None"):
             return {"True": True, "False": False, "None": None}[e.id]
         return Opaque(e.id)
@@ -1428,6 +1436,10 @@ class Interp:
         if isinstance(callee, FuncRef):
             return self.call_function(callee.fn, args, kwargs, None, e, closure_env=callee.env)
         if isinstance(callee, Opaque):
+            # a module-level function (or Class.function without self) of the repository: followed, not opaque
+            res = Interp.resolver(callee.name) if Interp.resolver is not None else None
+            if res is not None and self.depth < MAX_DEPTH:
+                return self.call_function(res, args, kwargs, None, e)
             return self.opaque_call(callee.name, args, kwargs, e)
         if isinstance(callee, Path) and not args and not kwargs:
             # method of a constants object (e.g. Food.in_units_...()): extend the path
